@@ -222,3 +222,135 @@ def replay_prefixes(h, case):
                             "detail": {"prefix": k, "name": n, "in_prefix": repr(v), "in_full": repr(fullobs[1].get(n))}}
     full["prefixes"] = len(resps)
     return full
+
+
+# ---------------------------------------------------------------------------
+# impl -> spec: recorded VM executions validated against VM.tla (VMTrace.tla)
+# ---------------------------------------------------------------------------
+
+MODELLED_HOOKS = {"Map", "Filter", "Reduce", "Range", "Trace"}
+UNMODELLED_OPS = {"BuildConstraint", "CheckConstraint", "JumpIfTrue", "JumpIfFalse", "SafeIndex"}
+
+
+def _chars(s):
+    return list(s)
+
+
+def _tla_val(v):
+    t = v["t"]
+    if t == "str":
+        return {"t": "str", "s": _chars(v["s"])}
+    if t == "float":
+        from fractions import Fraction
+        f = Fraction(R.float_from_bits(v["bits"]))
+        k = f.denominator.bit_length() - 1
+        if f.denominator != 1 << k or k > 8 or abs(f.numerator) > 10 ** 6:
+            raise ValueError("float outside the dyadic domain")
+        return {"t": "float", "fn": f.numerator, "fk": k}
+    if t == "int":
+        if abs(v["i"]) > 10 ** 8:
+            raise ValueError("integer outside TLC's comfortable range")
+        return {"t": "int", "i": v["i"]}
+    return dict(v)
+
+
+def tla_code(ops):
+    """harness `ops` output -> the op records of Translate.tla (raises ValueError when outside the model)"""
+    out = []
+    for o in ops:
+        op = o["op"]
+        if op in UNMODELLED_OPS:
+            raise ValueError("op outside the model: " + op)
+        r = {"op": op, "p": o.get("ln", 0)}
+        if op == "Val":
+            r["v"] = _tla_val(o["val"])
+        elif op in ("Sym", "DeRef"):
+            r["nm"] = _chars(o["nm"])
+        elif "jp" in o:
+            r["jp"] = o["jp"]
+        elif op == "Cast":
+            r["ty"] = o["ty"]
+        elif op == "Runtime":
+            if o["hook"] not in MODELLED_HOOKS:
+                raise ValueError("hook outside the model: " + o["hook"])
+            r["hook"] = o["hook"]
+        out.append(r)
+    return out
+
+
+def tla_event(e):
+    e = {k: v for k, v in e.items() if k != "seq"}
+    if e["ev"] == "op" and "top" in e:
+        t = dict(e["top"])
+        if t["t"] == "str":
+            t["s"] = _chars(t["s"])
+        elif t["t"] == "sym":
+            t["nm"] = _chars(t["nm"])
+        elif t["t"] == "float":
+            t = {"t": "float"}
+        elif t["t"] == "int" and abs(t["i"]) > 10 ** 8:
+            t = {"t": "int", "i": 0, "big": True}
+            raise ValueError("integer outside TLC's range")
+        e["top"] = t
+    if e["ev"] == "bind":
+        e["nm"] = _chars(e["nm"])
+    return e
+
+
+def record_traces(h, texts):
+    """-> list of (text, [ndjson records]) for the texts the model covers"""
+    out = []
+    for text in texts:
+        ev, op = h.batch([{"op": "eval", "src": text, "strict": True, "trace": True}, {"op": "ops", "src": text}])
+        if "crash" in ev or not op.get("ok"):
+            continue
+        o = ev["out"]
+        try:
+            code = tla_code(op["ops"])
+            events = [tla_event(e) for e in ev.get("trace", []) if e.get("ev") in ("op", "bind")]
+        except ValueError:
+            continue
+        if not code:
+            continue
+        recs = [{"ev": "load", "code": code}] + events + [{"ev": "end", "k": o["k"]}]
+        out.append((text, recs))
+    return out
+
+
+def validate_traces(recorded, gd, corrupt=None):
+    """Validate recorded executions with TLC.  -> (n_accepted, [rejections]) ; a rejection is
+    {"text", "reject": {...}}.  After a rejection the remaining executions are re-validated without it."""
+    import json as _json
+    remaining = list(recorded)
+    rejections = []
+    accepted = 0
+    states = 0
+    rounds = 0
+    while remaining and rounds < 8:
+        rounds += 1
+        path = os.path.join(gd, "vmtrace-%d.ndjson" % rounds)
+        with open(path, "w") as f:
+            for _, recs in remaining:
+                for r in recs:
+                    f.write(_json.dumps(r) + "\n")
+        r = C.run_tlc("VMTrace", "VMTrace", workers=1, timeout=1800, env_extra={"TRACE": path}, keep_lines=True,
+                      heap="6g")
+        states += r.generated
+        acc = [l for l in r.lines if l.startswith('<<"ACCEPTED"')]
+        rej = [l for l in r.lines if l.startswith('<<"REJECT"')]
+        if r.violation:
+            raise C.ToolError("VMTrace: invariant %s violated on a recorded execution\n%s" % (r.violation, r.errtext[:2000]))
+        if acc:
+            accepted += len(remaining)
+            break
+        if not rej:
+            raise C.ToolError("VMTrace run neither accepted nor rejected: %s\n%s" % (r.errtext[:1500], "\n".join(r.lines[-15:])))
+        m = C._REPLAY_RE.pattern  # unused; the REJECT payload is parsed below
+        payload = rej[0][len('<<"REJECT", "'):-3]
+        info = _json.loads(C._unescape_tla(payload))
+        k = info["exec"]                     # 1-based index of the execution in `remaining`
+        text = remaining[k - 1][0]
+        rejections.append({"text": text, "reject": info})
+        accepted += k - 1
+        remaining = remaining[k:]
+    return accepted, rejections, states
